@@ -375,6 +375,13 @@ func (p *Plugin) Start(config pipeline.AnyConfig, params *pipeline.ActionPluginP
 	p.config = config.(*Config)
 	p.logger = params.Logger
 
+	if p.config.BucketsCount < 1 {
+		p.logger.Fatalf("buckets_count must be > 0, passed: %d", p.config.BucketsCount)
+	}
+	if p.config.BucketInterval_ <= 0 {
+		p.logger.Fatalf("bucket_interval must be > 0, passed: %s", p.config.BucketInterval)
+	}
+
 	distrCfg := p.config.LimitDistribution.toInternal()
 	ld, err := parseLimitDistribution(distrCfg, p.config.DefaultLimit)
 	if err != nil {
